@@ -276,12 +276,23 @@ func vhC16(pairs bool) {
 	ws, err := New(ctx, reg, vault)
 	api.Assert(err == nil && ws != nil, "New succeeds")
 
-	p := shape.Plan(shape.Cfg{MinBlocks: 1, MaxBlocks: api.Bound("blocks", 2, 2), MinSeqs: 1, MaxSeqs: api.Bound("seqs", 2, 2), MinActions: 1, MaxActions: api.Bound("actions", 2, 2),
-		PlanGroups: api.Bound("plan_groups_family", shape.GroupsNoneOrAll, shape.GroupsFamily), BlockGroups: api.Bound("block_groups_family", shape.GroupsNone, shape.GroupsNoneOrAll), CheckActions: 1,
-		SimpleTailBlocks: true, SimpleTailSeqs: true, Req: kit.Req{}})
+	cfg := shape.Cfg{MinBlocks: 1, MaxBlocks: api.Bound("blocks", 2, 2), MinSeqs: 1, MaxSeqs: api.Bound("seqs", 2, 2), MinActions: 1, MaxActions: api.Bound("actions", 2, 2),
+		PlanGroups: api.Bound("plan_groups_family", shape.GroupsNoneOrAll, shape.GroupsNoneOrAll), BlockGroups: api.Bound("block_groups_family", shape.GroupsNone, shape.GroupsNoneOrAll), CheckActions: 1,
+		SimpleTailBlocks: true, SimpleTailSeqs: true, Req: kit.Req{}}
+	timed := api.Bound("timed_action_choices", 1, 2)
+	if pairs {
+		// pairs of mutations square the number of (class, position) choices: one block, one sequence, <=2 actions, plan groups none or all
+		cfg.MaxBlocks, cfg.MaxSeqs = 1, 1
+		cfg.PlanGroups, cfg.BlockGroups = api.Bound("pairs_plan_groups_family", shape.GroupsNoneOrAll, shape.GroupsNoneOrAll), shape.GroupsNone
+		timed = 1
+	}
+	p := shape.Plan(cfg)
 	o := vhCollect(p)
 	// one designated action gets an arbitrary timeout and retry budget
-	da := o.actions[len(o.actions)-1-pick("timed_action", api.Bound("timed_action_choices", 1, 2))]
+	if timed > len(o.actions) {
+		timed = len(o.actions)
+	}
+	da := o.actions[len(o.actions)-1-pick("timed_action", timed)]
 	da.Timeout = api.NondetDuration("timeout")
 	da.Retries = api.NondetInt("retries")
 	for i, b := range o.blocks {
